@@ -3,7 +3,7 @@
 /verif/seeded/<name>/ (patch.diff, demo/, NOTES.md, meta.json)."""
 import json, os, shutil, subprocess, sys
 pid, name, needs = sys.argv[1], sys.argv[2], sys.argv[3]
-src = os.environ.get('SEED_ROOT', '/tmp/seed8') + '/' + pid
+src = os.environ.get('SEED_ROOT', '/tmp/seed9') + '/' + pid
 dst = '/verif/seeded/' + name
 os.makedirs(dst, exist_ok=True)
 # the agent's own patch.diff is authoritative (the worktree state may have been disturbed);
